@@ -24,9 +24,18 @@ local _cached_mod = _cached_mod
 local _new_loader = _new_loader
 local _save_mod = _save_mod
 
+-- The bookkeeping of a frame's argument table is stored in the table itself
+-- under keys that no argument name can be equal to (argument names are
+-- strings and numbers)
+local ARGS_ORIG = {}
+local ARGS_FRAME = {}
+local ARGS_NEXT_KEY = {}
+local ARGS_PREPROCESSED = {}
+local ARGS_FIRST = {}  -- stands for nil in the next-key table
+
 local function frame_args_index(new_args, key)
     -- print("frame_args_index", key)
-    local v = new_args._orig[key]
+    local v = new_args[ARGS_ORIG][key]
     if v == nil then
         local i = tonumber(key)
         if i ~= nil then
@@ -34,13 +43,13 @@ local function frame_args_index(new_args, key)
         else
             return nil
         end
-        v = new_args._orig[key]
+        v = new_args[ARGS_ORIG][key]
         if v == nil then
             return nil
         end
     end
-    if not new_args._preprocessed[key] then
-        local frame = new_args._frame
+    if not new_args[ARGS_PREPROCESSED][key] then
+        local frame = new_args[ARGS_FRAME]
         if type(v) == "userdata" then
             -- Python tuple in luaexec.call_lua_sandbox.make_frame()
             local is_named = v[1]
@@ -53,16 +62,16 @@ local function frame_args_index(new_args, key)
             v = frame:preprocess(v)
         end
         -- Cache preprocessed value so we only preprocess each argument once
-        new_args._preprocessed[key] = true
-        new_args._orig[key] = v
+        new_args[ARGS_PREPROCESSED][key] = true
+        new_args[ARGS_ORIG][key] = v
     end
     -- print("frame_args_index", key, "->", "'"..v.."'")
     return v
 end
 
 local function frame_args_next(t, key)
-    if key == nil then key = "***nil***" end
-    local nkey = t._next_key[key]
+    if key == nil then key = ARGS_FIRST end
+    local nkey = t[ARGS_NEXT_KEY][key]
     if nkey == nil then return nil end
     local v = t[nkey]
     if v == nil then return nil end
@@ -76,17 +85,17 @@ local frame_args_meta = {
 
 local function prepare_frame_args(frame)
     local next_key = {}
-    local prev = "***nil***"
+    local prev = ARGS_FIRST
     for k, v in pairs(frame.args) do
         -- print("prepare_frame_args: k=" .. tostring(k) .. " v=" .. tostring(v))
         next_key[prev] = k
         prev = k
     end
     local new_args = {
-        _orig = frame.args,
-        _frame = frame,
-        _next_key = next_key,
-        _preprocessed = {}
+        [ARGS_ORIG] = frame.args,
+        [ARGS_FRAME] = frame,
+        [ARGS_NEXT_KEY] = next_key,
+        [ARGS_PREPROCESSED] = {},
     }
     setmetatable(new_args, frame_args_meta)
     frame.args = new_args
